@@ -353,6 +353,64 @@ func (d *discharger) dischargeBounds(s panicSite) (bool, string) {
 		if c.leLenGuard(x.Block(), x.Index, x.X, true) && (isConstNonNeg(x.Index)) {
 			return true, "index dominated by a comparison with len of the same value"
 		}
+		// a fixed-size array (a dispatch table indexed by a decoded number): idx < N and idx >= 0 on dominating edges; when
+		// the array is an array-of-structs function table, every index must also have its functions (a gap is a nil call)
+		if n, isArr := arrayLenOf(x.X.Type()); isArr {
+			idx := core.Unconv(x.Index)
+			upper := core.GuardedBy(x.Block(), func(cond ssa.Value) (bool, bool) {
+				bo, ok := cond.(*ssa.BinOp)
+				if !ok || core.Unconv(bo.X) != idx {
+					return false, false
+				}
+				k, isK := core.ConstInt(bo.Y)
+				if !isK {
+					return false, false
+				}
+				switch {
+				case bo.Op == token.GEQ && k <= n: // idx >= k false => idx < k <= n
+					return false, true
+				case bo.Op == token.GTR && k <= n-1:
+					return false, true
+				case bo.Op == token.LSS && k <= n:
+					return true, true
+				case bo.Op == token.LEQ && k <= n-1:
+					return true, true
+				}
+				return false, false
+			})
+			lower := isConstNonNeg(idx) || isUnsigned(idx.Type()) || core.GuardedBy(x.Block(), func(cond ssa.Value) (bool, bool) {
+				v, onT, onF, ok := core.SignTest(cond)
+				if !ok || core.Unconv(v) != idx {
+					return false, false
+				}
+				if onT == "nonneg" {
+					return true, true
+				}
+				if onF == "nonneg" {
+					return false, true
+				}
+				return false, false
+			})
+			if upper && lower {
+				if gl, isGl := x.X.(*ssa.Global); isGl {
+					for key, ents := range c.G.FieldTables {
+						if key.Global != gl {
+							continue
+						}
+						have := map[string]bool{}
+						for _, e := range ents {
+							if e.Key != nil {
+								have[e.Key.ExactString()] = true
+							}
+						}
+						if int64(len(have)) != n {
+							return false, fmt.Sprintf("the index is within the array, but the function table has %d of %d entries for one of its fields: an index without a function is a nil call", len(have), n)
+						}
+					}
+				}
+				return true, fmt.Sprintf("index tested to lie in [0, %d) of a fixed-size array", n)
+			}
+		}
 		// x[len(x)-k], k >= 1, under a test that len(x)-k is not negative (or that len(x) >= k)
 		if bo, ok := core.Unconv(x.Index).(*ssa.BinOp); ok && bo.Op == token.SUB {
 			if k, isK := core.ConstInt(bo.Y); isK && k >= 1 {
@@ -2351,4 +2409,20 @@ func (c *Ctx) lazilySetField(fn *ssa.Function, v ssa.Value) bool {
 		}
 	}
 	return nstores > 0
+}
+
+// arrayLenOf: t is an array or a pointer to one; returns its length.
+func arrayLenOf(t types.Type) (int64, bool) {
+	if p, ok := t.Underlying().(*types.Pointer); ok {
+		t = p.Elem()
+	}
+	if a, ok := t.Underlying().(*types.Array); ok {
+		return a.Len(), true
+	}
+	return 0, false
+}
+
+func isUnsigned(t types.Type) bool {
+	b, ok := t.Underlying().(*types.Basic)
+	return ok && b.Info()&types.IsUnsigned != 0
 }
